@@ -8,7 +8,7 @@
 //!   T <cfg> <seed> <pct|rand> [choices=c,c,..] | R: <rop>* | S: <sop> | S: <sop> ...
 //!        one schedule, traced.  Thread 0 is the receiver, threads 1.. own one Sender clone each.
 //!   S <cfg> <seed> <runs> | R: ... | S: ...          <runs> schedules, monitors only
-//!   K <function> <row>*                               D3 skeleton row list (echoed for the diff)
+//!   K <cfg> <function> <row>*                         D3 skeleton row list (echoed for the diff)
 //!   (<cfg> is read by the model driver only: 0 = code as it is, 1 = with the proposed F-35 repair)
 //! receiver ops: tr = try_recv   rv = sched::block_on(rx.recv())   c = close()      (drop at the end)
 //! sender ops:   s = send(v)     d = drop without sending          cs = close(); send(v)
@@ -17,11 +17,11 @@
 //!   T: `ok <n> res=<r0>/<r1>/.. [|| MON <clause> :: <detail> :: choices=..] @@ <model case>`
 //!      model case = `<scenario> || res=<..> ;; <event> ; <event> ...`
 //!      (`ok` = the run ended (completed or aborted); the monitors' verdict is the MON part)
-//!   S: `search ok runs=.. steps=.. events=.. parks=..` | `FAIL <clause> run=<i> seed=<s> :: <detail> :: choices=..`
+//!   S: `search ok runs=.. steps=.. events=.. parks=..` | `FAIL <clause> run=<i> seed=<s> :: <detail> :: choices=.. [|| FAIL ..]`
 //!   K: `skel <function> :: <row> ; <row> ...`
 //! results: receiver  v<id> (try_recv Ok) e (Empty) d (Disconnected) V<id> / D (recv future) c1 / c0 (close Ok / CloseError)
 //!          sender    ok | sent | closed | full | -
-//! monitor clauses: C01:multi-ok C03:second-send-ok C01:phantom C01:dup C01:lost-after-disc C04:disc-while-sent
+//! monitor clauses: C03:second-send-ok C01:phantom C01:dup C01:failed-op-effect C01:lost-after-disc C04:disc-while-sent
 //!   C04:value-after-disc C04:disc-with-live-sender C04:closed-handle C04:send-ok-after-rx-gone C06:deadlock (lost wake)
 //!   C06:step-limit C01:panic C09:leak C09:double-drop
 use fibre::error::{TryRecvError, TrySendError};
@@ -189,7 +189,37 @@ fn run_once(sc: &Scenario, policy: Policy, record: bool) -> OneRun {
 }
 
 /// property monitors over one run, judged from the API results and the drop counters alone
-fn judge(sc: &Scenario, r: &OneRun) -> Option<(String, String)> {
+fn judge(sc: &Scenario, r: &OneRun) -> Vec<(String, String)> {
+  let mut hits = judge1(sc, r).into_iter().collect::<Vec<_>>();
+  // C01 reading of the same race: the receiver kept receiving until it observed Disconnected, yet the
+  // value whose send reported Ok was never handed to it
+  if r.outcome == Outcome::Completed {
+    let n = sc.sops.len();
+    let oks: Vec<usize> = (1..=n).filter(|t| r.results[*t].first().map(|s| s == "ok").unwrap_or(false)).collect();
+    if oks.len() == 1 {
+      let mut closed = false;
+      let mut got = false;
+      let mut disc = false;
+      for res in &r.results[0] {
+        match res.as_str() {
+          "c1" => closed = true,
+          s if s.starts_with('v') || s.starts_with('V') => got = true,
+          "d" | "D" if !closed && !got => disc = true,
+          _ => {}
+        }
+      }
+      if disc && !got {
+        hits.push((
+          "C01:lost-after-disc".into(),
+          format!("the send of id {} reported Ok, the receiver received until it observed Disconnected on its open handle, and the value was never returned to it; receiver results={:?}", oks[0], r.results[0]),
+        ));
+      }
+    }
+  }
+  hits
+}
+
+fn judge1(sc: &Scenario, r: &OneRun) -> Option<(String, String)> {
   let n = sc.sops.len();
   match &r.outcome {
     Outcome::Deadlock(parked) => {
@@ -328,8 +358,8 @@ fn main() {
     let head: Vec<&str> = parts[0].split_whitespace().collect();
     match head[0] {
       "K" => {
-        let f = head.get(1).copied().unwrap_or("?");
-        writeln!(out, "skel {f} :: {}", head[2..].join(" ; ")).unwrap();
+        let f = head.get(2).copied().unwrap_or("?");
+        writeln!(out, "skel {f} :: {}", head[3.min(head.len())..].join(" ; ")).unwrap();
       }
       "T" | "S" if head.len() >= 4 => {
         let sc = match parse_threads(&parts[1..]) {
@@ -353,15 +383,17 @@ fn main() {
             steps += r.steps;
             events += r.trace.len();
             parks += r.parks;
-            if let Some((c, d)) = judge(&sc, &r) {
-              fail = Some((c, d, i, s, r));
+            let hits = judge(&sc, &r);
+            if !hits.is_empty() {
+              fail = Some((hits, i, s, r));
               break;
             }
           }
           match fail {
-            Some((c, d, i, s, r)) => {
+            Some((hits, i, s, r)) => {
               let ch: Vec<String> = r.choices.iter().map(|c| c.to_string()).collect();
-              writeln!(out, "FAIL {c} run={i} seed={s} :: {d} :: choices={}", ch.join(",")).unwrap();
+              let all: Vec<String> = hits.iter().map(|(c, d)| format!("FAIL {c} run={i} seed={s} :: {d} :: choices={}", ch.join(","))).collect();
+              writeln!(out, "{}", all.join(" || ")).unwrap();
             }
             None => writeln!(out, "search ok runs={runs} steps={steps} events={events} parks={parks}").unwrap(),
           }
@@ -384,13 +416,8 @@ fn main() {
           };
           let r = run_once(&sc, policy, true);
           let res = fmt_res(&r);
-          let mon = match judge(&sc, &r) {
-            Some((c, d)) => {
-              let ch: Vec<String> = r.choices.iter().map(|c| c.to_string()).collect();
-              format!(" || MON {c} :: {d} :: choices={}", ch.join(","))
-            }
-            None => String::new(),
-          };
+          let ch: Vec<String> = r.choices.iter().map(|c| c.to_string()).collect();
+          let mon: String = judge(&sc, &r).iter().map(|(c, d)| format!(" || MON {c} :: {d} :: choices={}", ch.join(","))).collect();
           writeln!(
             out,
             "ok {} res={res}{mon} @@ oneshot {} | {threads} || res={res} ;; {}",
